@@ -38,6 +38,15 @@ func propC05(r *Run) {
 		nw := simnet.New()
 		simnet.Cur = nw
 		nconn := 1 + r.Choose("nconn", 6)
+		nbase := nconn
+		stopDen := 40
+		if r.Choose("crowd", 8) == 0 {
+			// many peers at once, most of them slow: nothing the server does for one connection
+			// may depend on how many others are open
+			nconn += 6 + r.Choose("crowd-extra", 10)
+			stopDen = 400
+			r.Count("probe:runs-with-more-than-7-connections")
+		}
 		plans := make([]*connPlan, nconn)
 		cur := -1
 		cb := func(login, password, service, realm string) (bool, string, error) {
@@ -78,9 +87,18 @@ func propC05(r *Run) {
 		synctest.Wait()
 
 		msgLens := []int{0, 5, 26, 252, 253, 254, 300, 65532, 65533, 70000}
+		seenReq := map[[4]string]bool{}
 		for i := range plans {
 			p := &connPlan{}
-			switch r.Choose("stream-kind", 3) {
+			kind := r.Choose("stream-kind", 3)
+			if i >= nbase {
+				kind = 3 // crowd: a peer that sends part of a request and then just stays connected
+			}
+			switch kind {
+			case 3:
+				full := RefEncodeRequest([4]string{fmt.Sprintf("slow%d", i), fmt.Sprintf("pass%d", i), "svc", "r"})
+				p.stream = full[:1+r.Choose("staller-cut", len(full)-1)]
+				p.desc = fmt.Sprintf("slow peer: %d of %d request bytes, then silence", len(p.stream), len(full))
 			case 0: // a well-formed request with distinctive credentials
 				f := [4]string{fmt.Sprintf("user%d", i), fmt.Sprintf("pass%d", i), "svc", ""}
 				if r.Choose("limit-fields", 3) == 0 {
@@ -95,6 +113,16 @@ func propC05(r *Run) {
 				}
 			default:
 				p.stream, p.desc = genRequestBytes(r)
+			}
+			// the callback is attributed to a connection by the credentials it is called with:
+			// no two connections of a run carry the same decodable request
+			if f, _, derr := RefDecodeRequest(p.stream); derr == nil {
+				if seenReq[f] {
+					f = [4]string{fmt.Sprintf("user%d", i), fmt.Sprintf("pass%d", i), "svc", "again"}
+					p.stream = RefEncodeRequest(f)
+					p.desc = fmt.Sprintf("valid request (%d bytes)", len(p.stream))
+				}
+				seenReq[f] = true
 			}
 			p.cbOK = r.Choose("cb-ok", 2) == 1
 			p.cbMsg = seededBytes(uint64(r.Choose("cb-msg-seed", 50)), msgLens[r.Choose("cb-msg-len", len(msgLens))])
@@ -211,6 +239,9 @@ func propC05(r *Run) {
 				if p.sent < len(p.stream) {
 					acts = append(acts, act{"deliver", i}, act{"deliver-all", i})
 				}
+				if i >= nbase {
+					continue // a slow peer of the crowd stays connected to the end of the run
+				}
 				acts = append(acts, act{"close", i})
 				if r.Tier != "" {
 					acts = append(acts, act{"reset", i})
@@ -230,7 +261,7 @@ func propC05(r *Run) {
 				break
 			}
 			// "stall": a connection that is never chosen again; ending the run early is that for all
-			if steps > 6 && r.Choose("stop-early", 40) == 0 {
+			if steps > 6 && r.Choose("stop-early", stopDen) == 0 {
 				r.Count("fault:client-stall")
 				break
 			}
